@@ -310,8 +310,10 @@ static void _render_update(
  * return values < 0 indicate some error occurred,
  * and return values > buflen indicate buffer was not large enough
  */
-static int
-_render_stanza_recursive(xmpp_stanza_t *stanza, char *buf, size_t buflen)
+static int _render_stanza_recursive(xmpp_stanza_t *stanza,
+                                    const xmpp_stanza_t *root,
+                                    char *buf,
+                                    size_t buflen)
 {
     char *ptr = buf;
     size_t left = buflen;
@@ -352,15 +354,18 @@ _render_stanza_recursive(xmpp_stanza_t *stanza, char *buf, size_t buflen)
             iter = hash_iter_new(stanza->attributes);
             while ((key = hash_iter_next(iter))) {
                 if (!strcmp(key, "xmlns")) {
-                    /* don't output namespace if parent stanza is the same */
-                    if (stanza->parent && stanza->parent->attributes &&
+                    /* don't output namespace if parent stanza is the same;
+                     * the parent of the stanza being rendered is not part
+                     * of the output */
+                    if (stanza != root && stanza->parent &&
+                        stanza->parent->attributes &&
                         hash_get(stanza->parent->attributes, key) &&
                         !strcmp(
                             (char *)hash_get(stanza->attributes, key),
                             (char *)hash_get(stanza->parent->attributes, key)))
                         continue;
                     /* or if this is the stream namespace */
-                    if (!stanza->parent &&
+                    if ((stanza == root || !stanza->parent) &&
                         !strcmp((char *)hash_get(stanza->attributes, key),
                                 XMPP_NS_CLIENT))
                         continue;
@@ -400,7 +405,7 @@ _render_stanza_recursive(xmpp_stanza_t *stanza, char *buf, size_t buflen)
             /* iterate and recurse over child stanzas */
             child = stanza->children;
             while (child) {
-                ret = _render_stanza_recursive(child, ptr, left);
+                ret = _render_stanza_recursive(child, root, ptr, left);
                 if (ret < 0)
                     return ret;
 
@@ -451,7 +456,7 @@ int xmpp_stanza_to_text(xmpp_stanza_t *stanza, char **buf, size_t *buflen)
         return XMPP_EMEM;
     }
 
-    ret = _render_stanza_recursive(stanza, buffer, length);
+    ret = _render_stanza_recursive(stanza, stanza, buffer, length);
     if (ret < 0) {
         strophe_free(stanza->ctx, buffer);
         *buf = NULL;
@@ -470,7 +475,7 @@ int xmpp_stanza_to_text(xmpp_stanza_t *stanza, char **buf, size_t *buflen)
         length = ret + 1;
         buffer = tmp;
 
-        ret = _render_stanza_recursive(stanza, buffer, length);
+        ret = _render_stanza_recursive(stanza, stanza, buffer, length);
         if ((size_t)ret > length - 1) {
             strophe_free(stanza->ctx, buffer);
             *buf = NULL;
